@@ -40,6 +40,8 @@ DELIMS = [
     ("nt2", "NullTerminated({}, term=b'\\r\\n')", dict(term=b"\r\n", include=False, consume=True, require=True)),
     ("ns", "NullStripped({})", dict(pad=b"\x00")),
     ("oe", "OffsettedEnd(-1, {})", dict(end=-1)),
+    ("oe0", "OffsettedEnd(0, {})", dict(end=0)),
+    ("oe_t", "OffsettedEnd(-this._params.t, {})", {}),
     ("xor", "ProcessXor(this._params.key, {})", {}),
 ]
 DMAP = {d[0]: d for d in DELIMS}
@@ -58,7 +60,7 @@ def x8(a, b):
     return sum(((bit_of(a, i) + bit_of(b, i)) % 2) * 2 ** i for i in range(8))
 
 
-def region(tag, buf, pos, base, key):
+def region(tag, buf, pos, base, key, t=0):
     """(region items, absolute offset of the region's first byte, position in buf after the delimiter)
     buf: list of byte items of the enclosing region, pos: index into buf, base: absolute offset of buf[0]"""
     if tag in ("prefixed", "prefixed_incl"):
@@ -99,8 +101,8 @@ def region(tag, buf, pos, base, key):
         while data and same([data[-1]], [0]):
             data.pop()
         return data, base + pos, len(buf)
-    if tag == "oe":
-        end = len(buf) - 1
+    if tag in ("oe", "oe0", "oe_t"):
+        end = len(buf) - {"oe": 1, "oe0": 0, "oe_t": t}[tag]
         if end < pos:
             raise Reject("short")
         return list(buf[pos:end]), base + pos, end
@@ -142,13 +144,14 @@ def harness(ctx, C, p):
     chain, inner, s, n = p["chain"], p["inner"], p["s"], p["n"]
     data = ctx.bytes("data", s + n)
     key = ctx.int("key", 0, 255) if "xor" in chain else 0
+    t = ctx.concretize(ctx.int("t", 0, 2)) if "oe_t" in chain else 0
     # oracle: walk the chain on the byte items
     buf, pos, base = list(data), s, 0
     expect_end = None
     rejected = None
     try:
         for depth, tag in enumerate(chain):
-            sub, sub_base, after = region(tag, buf, pos, base, key)
+            sub, sub_base, after = region(tag, buf, pos, base, key, t)
             if depth == 0:
                 expect_end = after
             buf, pos, base = sub, 0, sub_base
@@ -165,7 +168,7 @@ def harness(ctx, C, p):
     d = mk(C, source)
     st = ctx.stream(data)
     st.seek(s)
-    r = api.outcome(d.parse_stream, st, key=key)
+    r = api.outcome(d.parse_stream, st, key=key, t=t)
     if rejected is not None:
         ctx.check("a region that does not fit / lacks its terminator is rejected", (not r.ok) and isinstance(r.exc, C.ConstructError))
         return "region-reject"
